@@ -59,7 +59,8 @@ func extractSymbols(journal *ast.Journal, uri protocol.DocumentURI, query string
 				})
 			}
 		case ast.CommodityDirective:
-			if matchesQuery(d.Commodity.Symbol, query) {
+			// a commodity directive may declare the commodity without a symbol: there is nothing to list, and no range
+			if d.Commodity.Symbol != "" && matchesQuery(d.Commodity.Symbol, query) {
 				symbols = append(symbols, protocol.SymbolInformation{
 					Name: d.Commodity.Symbol,
 					Kind: protocol.SymbolKindEnum,
